@@ -24,6 +24,12 @@ module j of the policy).  Before
 a learn step the model says which registered networks the step writes; the harness reports which
 ones really moved.
 
+Agents built from USER-SUPPLIED networks (`actor_network(s)=` / `critic_network(s)=` of DDPG, TD3, PPO, MADDPG, MATD3,
+IPPO; per-network architectures of the synthetic algorithms) whose heads differ in depth and bounds between the policy
+and the other evaluation networks: the numpy draws of the mutation methods are recorded (passed through unchanged) and
+`offered_check` re-enacts the statement on clones taken before the mutation - every other evaluation network must be
+exactly what the policy's applied method with the policy's returned arguments makes of it (its own fallback / bound).
+
 Oracle (the statement itself, independent of the model): optimizer parameter lists ARE the
 concatenation of the registered networks' current parameters; group lr == agent's lr attribute;
 shared networks equal their evaluation network in `init_dict` and weights right after mutation;
@@ -258,25 +264,32 @@ def observe(agent, problems: list, where: str, after_mutation: bool) -> str:
     return f"idx={agent.index} mut={agent.mut} | " + " | ".join(opts) + " | " + " ".join(sh)
 
 
-def lma_line(agent, problems: list, where: str, changes: dict) -> str:
+def lma_line(agent, problems: list, where: str, changes: dict, offered_ok: dict | None = None) -> str:
     """per evaluation module the applied change (method and what it did to the architecture); the
     oracle: module j (sub-agent j) of every network trained alongside the policy received the same
-    change as module j of the policy"""
+    change as module j of the policy.  `offered_ok` (agents built from user-supplied networks whose
+    architectures / bounds differ): {(network, j): the module is exactly what being handed the policy's
+    applied method with the policy's returned arguments makes of it (own fallback, own bounds)} as
+    judged by `offered_check`; such a module carries the policy's change in the model's sense"""
     layout = net_layout(agent)
-    parts, pol, rows = [], None, []
+    pol = changes[[n for n, r, _ in layout if r == "p"][0]]
+    if offered_ok is not None:
+        changes = {n: [(pol[j] if j < len(pol) else pol[0]) if offered_ok.get((n, j)) else c for j, c in enumerate(l)]
+                   for n, l in changes.items()}
+    parts, rows = [], []
     for k, (n, r, _) in enumerate(layout):
         if r.startswith("s"):
             continue
         l = changes[n]
         rows.append((n, l))
-        if r == "p":
-            pol = l
         parts.append(f"{k}:" + ",".join(change_token(m, d) for m, d in l))
     followed = True
     for n, l in rows:
         for j in range(min(len(l), len(pol))):
             if l[j] != pol[j]:
                 followed = False
+                if offered_ok is not None:
+                    continue                      # reported by offered_check with the expected outcome
                 what = "method" if l[j][0] != pol[j][0] else "change"
                 problems.append(f"{where}: module {j} of the policy received {pol[j][0]} ({pol[j][1]}) but module {j} of "
                                 f"{n} received {l[j][0]} ({l[j][1]}): a network trained alongside the policy did not "
@@ -436,6 +449,7 @@ class Recorder:
         self.kinds = {}        # id(agent) -> kind
         self.hp = {}           # id(agent) -> sampled hyper-parameter name
         self.parents = {}      # id(child) -> parent object
+        self.draws = {}        # id(agent) -> [(function, arguments, value)] numpy draws made while it was mutated
         self._current = None
 
     def wrap_mutations(self, m):
@@ -475,13 +489,131 @@ class Recorder:
             c = o_clone(agent, *a, **k)
             rec.parents[id(c)] = agent
             return c
+        # the draws the mutation methods of the networks make (which layer, how many nodes, kernel ...): passed
+        # through unchanged and recorded per agent, so that `offered_check` can re-enact a mutation
+        o_ri, o_ch = np.random.randint, np.random.choice
+
+        def randint(*a, **k):
+            v = o_ri(*a, **k)
+            if rec._current is not None:
+                rec.draws.setdefault(id(rec._current), []).append(("randint", draw_sig(a, k), v))
+            return v
+
+        def choice(*a, **k):
+            v = o_ch(*a, **k)
+            if rec._current is not None:
+                rec.draws.setdefault(id(rec._current), []).append(("choice", draw_sig(a, k), v))
+            return v
         HyperparameterConfig.sample = sample
         EvolvableAlgorithm.clone = clone
+        np.random.randint, np.random.choice = randint, choice
         try:
             yield
         finally:
             HyperparameterConfig.sample = o_sample
             EvolvableAlgorithm.clone = o_clone
+            np.random.randint, np.random.choice = o_ri, o_ch
+
+
+def draw_sig(a, k) -> str:
+    def c(x):
+        if isinstance(x, (list, tuple, np.ndarray)):
+            return [c(y) for y in x]
+        return int(x) if isinstance(x, (int, np.integer)) else repr(x)
+    return json.dumps([[c(x) for x in a], {n: c(v) for n, v in sorted(k.items()) if n != "dtype"}])
+
+
+class ReplayDraws:
+    """serves np.random.randint / np.random.choice from a recorded list, in order; a call that does not
+    fit the next record gets a fresh draw and sets `unaligned`"""
+
+    def __init__(self, log: list):
+        self.log, self.pos, self.unaligned = list(log), 0, False
+        self._o = None
+
+    def _serve(self, name, a, k, real):
+        if self.pos < len(self.log) and self.log[self.pos][0] == name and self.log[self.pos][1] == draw_sig(a, k):
+            v = self.log[self.pos][2]
+            self.pos += 1
+            return v.copy() if isinstance(v, np.ndarray) else v
+        self.unaligned = True
+        return real(*a, **k)
+
+    def __enter__(self):
+        self._o = (np.random.randint, np.random.choice)
+        o_ri, o_ch = self._o
+        np.random.randint = lambda *a, **k: self._serve("randint", a, k, o_ri)
+        np.random.choice = lambda *a, **k: self._serve("choice", a, k, o_ch)
+        return self
+
+    def __exit__(self, *exc):
+        np.random.randint, np.random.choice = self._o
+
+
+def sig_text(sig: dict) -> str:
+    return " ".join(f"{k}={v}" for k, v in sorted(sig.items()) if k.endswith("hidden_size") or k.endswith("channel_size"))
+
+
+def shadow_evals(agent) -> dict:
+    """clones of every evaluation module of an agent (taken before a mutation)"""
+    return {n: [m.clone() for m in mods_of(agent, n)] for n, r, _ in net_layout(agent) if not r.startswith("s")}
+
+
+def offered_check(agent, shadow: dict, log: list, where: str, problems: list, tags: list):
+    """Oracle for agents whose evaluation networks differ in architecture / bounds (user-supplied networks), the
+    statement re-enacted on clones taken before the mutation: module j of the policy applied method A_j
+    (`last_mutation_attr`) and returned arguments K_j; module j of every other evaluation network must be exactly
+    what `getattr(its old self, A_j)(**K_j)` makes of it - same constructor sizes, same `last_mutation_attr` (its
+    OWN fallback and bounds allowed, nothing else).  The numpy draws recorded during the real mutation are served
+    in the same order (policy modules first, then the other networks in registry order).
+    -> {(network, j): as expected} or None when the policy's own step cannot be re-enacted from the record"""
+    layout = net_layout(agent)
+    pol = [n for n, r, _ in layout if r == "p"][0]
+    others = [n for n, r, _ in layout if r == "e"]
+    ok: dict = {}
+    A, K = [], []
+    with ReplayDraws(log) as rp, warnings.catch_warnings():
+        warnings.simplefilter("ignore")
+        for real, sh in zip(mods_of(agent, pol), shadow[pol]):
+            a = getattr(real, "last_mutation_attr", None)
+            k = {}
+            if a is not None:
+                try:
+                    k = getattr(sh, a)() or {}
+                except Exception:
+                    tags.append("shadow-unaligned")
+                    return None
+                if sh.last_mutation_attr != a or arch_sig(sh) != arch_sig(real) or rp.unaligned:
+                    tags.append("shadow-unaligned")
+                    return None
+            A.append(a)
+            K.append(k)
+        for n in others:
+            for j, (real, sh) in enumerate(zip(mods_of(agent, n), shadow[n])):
+                a, k = (A[j], K[j]) if j < len(A) else (A[0], K[0])
+                before = arch_sig(sh)
+                if a is None:
+                    sh.last_mutation_attr = None
+                else:
+                    try:
+                        getattr(sh, a)(**k)
+                    except Exception:
+                        continue                   # the real call raised as well: reported as the failure of the op
+                got = getattr(real, "last_mutation_attr", None)
+                same = sh.last_mutation_attr == got and arch_sig(sh) == arch_sig(real)
+                ok[(n, j)] = same
+                kk = {x: (int(y) if isinstance(y, (int, np.integer)) else y) for x, y in k.items()}
+                if not same:
+                    problems.append(
+                        f"{where}: module {j} of the policy applied {a} and returned {kk}; handed that, {n}[{j}] "
+                        f"({sig_text(before)}) applies {sh.last_mutation_attr} ({arch_delta(before, arch_sig(sh))}), "
+                        f"but the agent's {n}[{j}] applied {got} ({arch_delta(before, arch_sig(real))}): a network "
+                        f"trained alongside the policy was not handed the policy's mutation")
+                elif sh.last_mutation_attr != a:
+                    tags.append("hetero-own-fallback")
+                elif a is not None and arch_sig(sh) == before:
+                    tags.append("hetero-own-bound")
+    return ok
 
 
 # ------------------------------------------------------------------------------ one history
@@ -553,7 +685,12 @@ def syn_class():
             n_obs, n_act = observation_space.shape[0], action_space.shape[0]
             multi, n_sub = bool(shape.get("multi")), 2
 
-            def mlp(n_out):
+            def mlp(n_out, k=0):
+                a = (shape.get("archs") or [])[k:k + 1]
+                if a:        # network k (0 = policy, then the extra groups) with its own depth and bounds
+                    return EvolvableMLP(n_obs, n_out, hidden_size=list(a[0]["h"]), min_hidden_layers=a[0]["ll"],
+                                        max_hidden_layers=a[0]["hl"], min_mlp_nodes=a[0]["ln"], max_mlp_nodes=a[0]["hn"],
+                                        device=device)
                 return EvolvableMLP(n_obs, n_out, hidden_size=[32, 32] if shape.get("deep") else [32], min_mlp_nodes=8,
                                     max_mlp_nodes=128, device=device)
 
@@ -571,15 +708,15 @@ def syn_class():
                     self.actor_target.load_state_dict(self.actor.state_dict())
             for k, has_t in enumerate(shape["extras"]):
                 if multi:
-                    setattr(self, f"critics_{k + 1}", [mlp(1) for _ in range(n_sub)])
+                    setattr(self, f"critics_{k + 1}", [mlp(1, k + 1) for _ in range(n_sub)])
                     if has_t:
-                        setattr(self, f"critic_targets_{k + 1}", [mlp(1) for _ in range(n_sub)])
+                        setattr(self, f"critic_targets_{k + 1}", [mlp(1, k + 1) for _ in range(n_sub)])
                         for t, e in zip(getattr(self, f"critic_targets_{k + 1}"), getattr(self, f"critics_{k + 1}")):
                             t.load_state_dict(e.state_dict())
                 else:
-                    setattr(self, f"critic_{k + 1}", mlp(1))
+                    setattr(self, f"critic_{k + 1}", mlp(1, k + 1))
                     if has_t:
-                        setattr(self, f"critic_target_{k + 1}", mlp(1))
+                        setattr(self, f"critic_target_{k + 1}", mlp(1, k + 1))
                         getattr(self, f"critic_target_{k + 1}").load_state_dict(getattr(self, f"critic_{k + 1}").state_dict())
             pol = "actors" if multi else "actor"
             ex = [(f"critics_{k + 1}" if multi else f"critic_{k + 1}") for k in range(len(shape["extras"]))]
@@ -715,6 +852,39 @@ def deep_net_config(algo: str, fam: str) -> dict:
     return cfg
 
 
+# constructor arguments through which the algorithms accept user-supplied networks (policy, other evaluation networks)
+NET_ARGS = {"DDPG": ("actor_network", "critic_network", "one"), "PPO": ("actor_network", "critic_network", "one"),
+            "TD3": ("actor_network", "critic_networks", "list"), "MADDPG": ("actor_networks", "critic_networks", "one"),
+            "IPPO": ("actor_networks", "critic_networks", "one"), "MATD3": ("actor_networks", "critic_networks", "list")}
+
+
+def is_hetero(case: dict) -> bool:
+    return bool(case.get("nets")) or bool((case.get("shape") or {}).get("archs"))
+
+
+def user_networks(algo: str, fam: str, seed: int, nets: list) -> dict:
+    """the networks a user would hand to the constructor: those of a default agent, re-built from their own
+    constructor description with the head (depth, widths, bounds) of `nets[g]` for registry group g"""
+    import copy
+    import agents as A
+    donor = A.build(algo, fam, seed=seed, hp_config=A.default_hp_config(algo))
+
+    def remake(net, a):
+        d = copy.deepcopy(getattr(net, "_orig_mod", net).init_dict)
+        d["head_config"] = dict(d.get("head_config") or {}, hidden_size=list(a["h"]), min_hidden_layers=a["ll"],
+                                max_hidden_layers=a["hl"], min_mlp_nodes=a["ln"], max_mlp_nodes=a["hn"])
+        if a.get("enc"):
+            d["encoder_config"] = dict(d.get("encoder_config") or {}, hidden_size=list(a["enc"]), min_mlp_nodes=a["ln"],
+                                       max_mlp_nodes=a["hn"])
+        return type(getattr(net, "_orig_mod", net))(**d)
+    groups = []
+    for g, a in zip(donor.registry.groups, nets):
+        o = getattr(donor, g.eval)
+        groups.append([remake(n, a) for n in o] if isinstance(o, list) else remake(o, a))
+    p_arg, c_arg, form = NET_ARGS[algo]
+    return {p_arg: groups[0], c_arg: groups[1] if form == "one" else groups[1:]}
+
+
 def build_population(case: dict):
     import agents as A
     algo, fam = case["algo"], case["family"]
@@ -729,6 +899,9 @@ def build_population(case: dict):
             kw = dict(lr_actor=float("0.0001220703125"), lr_critic=float("0.0009765625"))
         if case.get("deep"):
             kw["net_config"] = deep_net_config(algo, fam)
+        if case.get("nets"):
+            with A._PreservedRNG():
+                kw.update(user_networks(algo, fam, case["seed"] + 17 * i, case["nets"]))
         ag = A.build(algo, fam, seed=case["seed"] + 17 * i, share_encoders=case.get("share"),
                      hp_config=make_hp_config(algo, case.get("hps")), index=idx[i], **kw)
         pop.append(ag)
@@ -802,6 +975,8 @@ def run_history(chk: Check, case: dict, mode: str = "repaired") -> dict:
                     before_arch = [eval_archs(ag) for ag in pop]
                     before_sig = [eval_sigs(ag) for ag in pop]
                     changes = {}
+                    offered = {}
+                    shadows = {id(ag): shadow_evals(ag) for ag in pop} if is_hetero(case) and probs[1] else {}
                     before_state = [opt_state_sizes(ag) for ag in pop]
                     before_sync = [targets_in_sync(ag) for ag in pop]
                     m = Mutations(no_mutation=probs[0], architecture=probs[1],
@@ -811,6 +986,7 @@ def run_history(chk: Check, case: dict, mode: str = "repaired") -> dict:
                     rec.wrap_mutations(m)
                     rec.kinds.clear()
                     rec.hp.clear()
+                    rec.draws.clear()
                     out = m.mutation(pop, pre_training_mut=pre)
                     # ---- oracle: size, order, indices
                     if len(out) != len(pop):
@@ -873,6 +1049,10 @@ def run_history(chk: Check, case: dict, mode: str = "repaired") -> dict:
                         else:
                             changes[i] = applied_changes(ag, before_sig[i] if i < len(before_sig) else {})
                             ap = applied_of(ag, changes[i])
+                            if id(ag) in shadows:
+                                tags.append("hetero-arch")
+                                offered[i] = offered_check(ag, shadows[id(ag)], rec.draws.get(id(ag), []),
+                                                           f"{where}: agent {i}", problems, tags)
                             choices.append("arch " + ",".join(change_token(m, d) for m, d in ap) + " " + arch_sizes(ag))
                             want = str(ap[0][0])
                             if len({d for _, d in ap}) > 1:
@@ -889,9 +1069,9 @@ def run_history(chk: Check, case: dict, mode: str = "repaired") -> dict:
                     for i, ag in enumerate(pop):
                         lines.append(f"coh show {i}")
                         impl.append(observe(ag, problems, f"{where}: agent {i} after {rec.kinds.get(id(ag), 'none')}", True))
-                        if rec.kinds.get(id(ag)) == "arch":
+                        if rec.kinds.get(id(ag)) == "arch" and not (is_hetero(case) and offered.get(i) is None):
                             lines.append(f"coh lma {i}")
-                            impl.append(lma_line(ag, problems, f"{where}: agent {i}", changes[i]))
+                            impl.append(lma_line(ag, problems, f"{where}: agent {i}", changes[i], offered.get(i)))
                     # ---- oracle: every agent can still act
                     for i, ag in enumerate(pop):
                         try:
@@ -1005,6 +1185,32 @@ def gen_ops(rng: random.Random, gens: int, size: int, first_kind: str | None = N
     return ops
 
 
+def gen_net_arch(rng: random.Random) -> dict:
+    """one network's head: depth at or near its own layer bounds, widths near its own node bounds"""
+    ll = rng.choice([1, 1, 2])
+    hl = rng.choice([ll + 1, 3])               # the constructors require min < max
+    depth = rng.choice([ll, hl, rng.randint(ll, hl)])
+    ln, hn = rng.choice([8, 16]), rng.choice([32, 48, 64, 128])
+    return {"h": [rng.choice([w for w in (16, 24, 32) if ln <= w <= hn]) for _ in range(depth)],
+            "ll": ll, "hl": hl, "ln": ln, "hn": hn}
+
+
+def gen_hetero(rng: random.Random, n_groups: int) -> list:
+    """architectures for the policy and the other evaluation networks such that a layer method the POLICY really applies
+    makes at least one of the others fall back (it is at its own bound); with two others, mostly such that the first falls
+    back and the second does not (what the first one did must not leak into what the second is handed)"""
+    def blocked(a):          # layer methods this network cannot apply itself
+        return {m for m, b in (("remove_layer", len(a["h"]) <= a["ll"]), ("add_layer", len(a["h"]) >= a["hl"])) if b}
+    chain = n_groups > 2 and rng.random() < 0.75
+    while True:
+        a = [gen_net_arch(rng) for _ in range(n_groups)]
+        free = {"remove_layer", "add_layer"} - blocked(a[0])
+        if chain and not any(m in blocked(a[1]) and m not in blocked(a[2]) for m in free):
+            continue
+        if any(free & blocked(c) for c in a[1:]):
+            return a
+
+
 _BASELINE: dict = {}
 
 
@@ -1036,7 +1242,7 @@ def case_list(chk: Check):
     for f in sorted((ROOT / "corpus" / "C02").glob("*.json")):
         c = json.loads(f.read_text())
         c = c.get("replay", c)
-        cases.append({k: c[k] for k in ("algo", "family", "share", "seed", "size", "ops", "shape", "deep", "indices") if k in c} |
+        cases.append({k: c[k] for k in ("algo", "family", "share", "seed", "size", "ops", "shape", "deep", "indices", "nets") if k in c} |
                      ({"hps": c["hps"]} if c.get("hps") else {}) | {"origin": f.name})
     quick = chk.tier == "quick"
     for algo in A.ALGOS:
@@ -1091,6 +1297,28 @@ def case_list(chk: Check):
                  ["DDPG", "TD3", "PPO", "MADDPG", "MATD3", "IPPO"]):
         cases.append({"algo": algo, "family": "vector", "share": None, "seed": rng.randrange(1 << 20), "size": 2,
                       "deep": True, "ops": [arch_node() for _ in range(4 if quick else 8)] + [["learn", 1, rng.randrange(1 << 16)]]})
+    # agents built from USER-SUPPLIED networks whose heads differ in depth / bounds between the policy and the other
+    # evaluation networks (every algorithm that accepts them; synthetic registry shapes with 1-2 extra groups, single
+    # and list groups): architecture mutations in a row, layer-heavy and node-heavy, then select / learn; the method a
+    # network falls back on and the bound that stops it are its own, the method and arguments it is handed are the policy's
+    def arch_at(p):
+        return ["mutate", list(UNIT["arch"]), 0, rng.randrange(1 << 16), 1, p]
+    het_algos = ["DDPG", "TD3", "PPO"] + ([rng.choice(["MADDPG", "MATD3", "IPPO"])] if quick else ["MADDPG", "MATD3", "IPPO"])
+    for algo in het_algos * (1 if quick else 2):
+        n_groups = 3 if algo in ("TD3", "MATD3") else 2
+        ops = [arch_at(rng.choice([0.9, 0.9, 0.3])) for _ in range(4 if quick else 8)]
+        ops += [["learn", 0, rng.randrange(1 << 16)], ["select", rng.randrange(1 << 20), 1], arch_at(0.9),
+                ["learn", 1, rng.randrange(1 << 16)]]
+        cases.append({"algo": algo, "family": "vector", "share": (rng.random() < 0.5) if algo in A.SHARE_ENCODER_ALGOS else None,
+                      "seed": rng.randrange(1 << 20), "size": 2, "nets": gen_hetero(rng, n_groups), "ops": ops})
+    het_syn = [{"pt": True, "extras": [True, True], "opt": "per-net", "lr": "separate", "multi": False},
+               {"pt": True, "extras": [True, False], "opt": "per-net", "lr": "shared", "multi": True},
+               {"pt": False, "extras": [True], "opt": "joint", "lr": "separate", "multi": False},
+               {"pt": True, "extras": [False, True], "opt": "joint-extras", "lr": "separate", "multi": False}]
+    for sh in (rng.sample(het_syn, 2) if quick else het_syn):
+        ops = [arch_at(rng.choice([0.9, 0.9, 0.3])) for _ in range(5 if quick else 10)] + [["learn", 0, rng.randrange(1 << 16)]]
+        cases.append({"algo": SYN, "family": "vector", "share": None, "seed": rng.randrange(1 << 20), "size": 2,
+                      "shape": dict(sh, archs=gen_hetero(rng, 1 + len(sh["extras"]))), "ops": ops})
     # populations whose indices are duplicated (clones keep the parent's index), unordered, non-contiguous
     idx_algos = [("DQN", None), ("IPPO", None), (SYN, rng.choice(shapes))] + ([] if quick else [("TD3", None), ("PPO", None)])
     for k, (algo, sh) in enumerate(idx_algos):
@@ -1176,6 +1404,7 @@ def report(chk: Check, case: dict, res: dict, do_shrink: bool = True) -> None:
 def syn_tags(case: dict) -> list:
     sh = case.get("shape")
     extra = (["deep-nets"] if case.get("deep") or (sh or {}).get("deep") else []) + \
+        (["user-supplied-nets"] if is_hetero(case) else []) + \
         (["indices-" + ("duplicate" if len(set(case["indices"])) < len(case["indices"]) else "unordered")]
          if case.get("indices") else [])
     if not sh:
@@ -1512,7 +1741,9 @@ def run(chk: Check) -> None:
     chk.rule = ("multi-generation histories (tournament select -> Mutations.mutation(pop) -> learn; 1-3 generations "
                 "quick, 6 thorough; probability vectors incl. the five unit vectors; pre_training_mut; mutate_elite) on "
                 "populations of 2-3 real agents of all eleven algorithms (vector observations; image/dict/discrete/tuple "
-                "for some); distinct = distinct (algo, family, share_encoders, seed, history); non-trivial = the history "
+                "for some; agents built from user-supplied networks whose heads differ in depth / node and layer bounds "
+                "between policy and critics: DDPG, TD3, PPO, one multi-agent algorithm (thorough: all six), synthetic shapes); "
+                "distinct = distinct (algo, family, share_encoders, seed, history); non-trivial = the history "
                 "contains a mutation kind other than 'none' followed by a learn step")
     chk.assumptions = [
         "agents.py builds the algorithms as the library's users do (tiny networks); lr_actor / lr_critic are distinct "
@@ -1528,7 +1759,7 @@ def run(chk: Check) -> None:
         res = run_history(chk, case)
         kinds = {t for t in res["tags"] if t.startswith("kind-") and t != "kind-none"}
         chk.case([case["algo"], case["family"], case.get("share"), case["seed"], case["ops"], case.get("hps"),
-                  case.get("shape"), case.get("deep"), case.get("indices")],
+                  case.get("shape"), case.get("deep"), case.get("indices"), case.get("nets")],
                  nontrivial=bool(kinds) and "learn" in res["tags"],
                  sample={"algo": case["algo"], "family": case["family"], "share_encoders": case.get("share"),
                          "size": case["size"], "ops": case["ops"][:5]},
@@ -1667,6 +1898,36 @@ def selftest(chk: Check) -> None:
         Mutations._apply_arch_mutation = o_apply
 
 
+    # 6. user-supplied networks of different depth: the second critic is handed what the FIRST critic applied (its own
+    #    fallback) instead of what the policy applied
+    het = {"algo": "TD3", "family": "vector", "share": False, "seed": 11, "size": 2, "nets": [{"h": [16, 16], "ll": 1, "hl": 3, "ln": 8, "hn": 64}, {"h": [16], "ll": 1, "hl": 2, "ln": 8, "hn": 32}, {"h": [16, 16], "ll": 1, "hl": 3, "ln": 8, "hn": 64}],
+           "ops": [["mutate", [0, 1, 0, 0, 0], 0, 0, 1, 0.9], ["mutate", [0, 1, 0, 0, 0], 0, 1, 1, 0.9], ["mutate", [0, 1, 0, 0, 0], 0, 2, 1, 0.9], ["mutate", [0, 1, 0, 0, 0], 0, 3, 1, 0.9], ["learn", 0, 5], ["learn", 1, 6]]}
+
+    def chained(self, networks, mut_method, applied_mut_dict=None):
+        if applied_mut_dict is not None and getattr(self, "_verif_last", None) is not None:
+            mut_method = self._verif_last
+        r = o_apply(self, networks, mut_method, applied_mut_dict)
+        self._verif_last = r[0]
+        return r
+    Mutations._apply_arch_mutation = chained
+    try:
+        must_fail("the second critic is handed the first critic's fallback (user-supplied networks)", het,
+                  "was not handed the policy's mutation")
+    finally:
+        Mutations._apply_arch_mutation = o_apply
+    # 7. ... and the agent reports the method of another evaluation network instead of its policy's
+    def arch_label_of_last(self, individual):
+        r = o_arch(self, individual)
+        first_other = [g.eval for g in r.registry.groups if not g.policy][0]
+        r.mut = str(mods_of(r, first_other)[0].last_mutation_attr)
+        return r
+    Mutations.architecture_mutate = arch_label_of_last
+    try:
+        must_fail("agent.mut names a critic's method (user-supplied networks)", het, "but reports mut=")
+    finally:
+        Mutations.architecture_mutate = o_arch
+
+
 def selftest_wrapper(chk: Check) -> None:
     """seeded faults in wrappers.py that break the property must be noticed by the optimizer-wrapper suite"""
     import agilerl.algorithms.core.wrappers as W
@@ -1706,7 +1967,7 @@ def replay(chk: Check, path: str) -> int:
             print(f"VIOLATION property=C02 replay={path}")
             return 1
         return 0
-    case = {k: c[k] for k in ("algo", "family", "share", "seed", "size", "ops", "hps", "shape", "deep", "indices") if k in c}
+    case = {k: c[k] for k in ("algo", "family", "share", "seed", "size", "ops", "hps", "shape", "deep", "indices", "nets") if k in c}
     case.setdefault("share", None)
     res = run_history(chk, case)
     d = res["diff"]
